@@ -109,7 +109,7 @@ Proof. intros s _ _ c; constructor; cbn; auto. Qed.
 Lemma replays_pop_cleanup : replays pop_cleanup.
 Proof.
   intros s _ _ c. unfold pop_cleanup. cbn [with_src ts].
-  destruct (cleanups (ts s)) as [|[i f] r]; constructor; cbn; auto.
+  destruct (cleanups (ts s)) as [|[i f] r]; [|destruct (cleaning (ts s))]; constructor; cbn; auto.
 Qed.
 Lemma replays_failOnError l : replays (failOnError l).
 Proof.
@@ -659,7 +659,7 @@ Section InterpReplay.
   Lemma cleanup_loop_err : forall fuel last s e, res (cleanup_loop crun fuel last s) = Err e -> e = XFuel.
   Proof.
     induction fuel as [|f IH]; intros last s e; cbn [cleanup_loop]; [cbn; congruence|].
-    unfold bind at 1. unfold pop_cleanup at 1 2 3. destruct (cleanups (ts s)) as [|[id c] rest]; cbn [res post]; [cbn; discriminate|].
+    unfold bind at 1. unfold pop_cleanup at 1 2 3. destruct (cleanups (ts s)) as [|[id c] rest]; [|destruct (cleaning (ts s))]; cbn [res post]; [cbn; discriminate| |cbn; discriminate].
     unfold try_. cbn [res]. destruct (res (crun c _)) as [v|e0]; [apply IH|].
     destruct e0; try (unfold bind at 1; cbn [ret res post]; apply IH).
     - unfold bind at 1. destruct (internal_msg m); cbn [mark_dirty ret res post]; apply IH.
